@@ -245,6 +245,31 @@ Theorem C15_rsa_pkcs8_roundtrip : forall n e d p q dmp1 dmq1 iqmp,
 Proof. exact rsa_pkcs8_roundtrip. Qed.
 Print Assumptions C15_rsa_pkcs8_roundtrip.
 
+(* ---- comments as options, OPTIONAL ASN.1 fields ---- *)
+
+(* the comment of a key is an option; what export writes for it is read back as the same option
+   (an explicitly empty comment is the same as none).  No file name enters the model's export. *)
+Theorem C15_comment_option_roundtrip : forall c, c <> Some [] -> set_comment (comment_field c) = c.
+Proof. exact comment_option_roundtrip. Qed.
+Print Assumptions C15_comment_option_roundtrip.
+
+(* PBKDF2-params (RFC 8018 A.2): keyLength OPTIONAL and prf DEFAULT are accepted present or absent *)
+Theorem C15_pbkdf2_optional_fields_accepted : forall known dks salt count ks prf p,
+  known prf = true ->
+  pbkdf2_params known dks [VSeq [VOctets salt; VInt count]] = Some (salt, count, dks, HMAC_SHA1_OID) /\
+  pbkdf2_params known dks [VSeq [VOctets salt; VInt count; VInt ks]] = Some (salt, count, ks, HMAC_SHA1_OID) /\
+  pbkdf2_params known dks [VSeq [VOctets salt; VInt count; VSeq [VOid prf; p]]] = Some (salt, count, dks, prf) /\
+  pbkdf2_params known dks [VSeq [VOctets salt; VInt count; VInt ks; VSeq [VOid prf; p]]] = Some (salt, count, ks, prf).
+Proof. exact pbkdf2_optional_fields_accepted. Qed.
+Print Assumptions C15_pbkdf2_optional_fields_accepted.
+
+(* PrivateKeyInfo / OneAsymmetricKey: attributes [0] and publicKey [1] after the key are accepted *)
+Theorem C15_pkcs8_trailing_fields_accepted : forall ver alg prm key extra,
+  pkcs8_private_shape (VSeq (ver :: VSeq (alg :: prm) :: VOctets key :: extra)) =
+  pkcs8_private_shape (VSeq [ver; VSeq (alg :: prm); VOctets key]).
+Proof. exact pkcs8_trailing_fields_accepted. Qed.
+Print Assumptions C15_pkcs8_trailing_fields_accepted.
+
 (* non-vacuity: a PKCS#8-shaped tree with an explicit tag, a bit string and a set is [good] *)
 Example C15_good_example :
   good (VSeq [VInt 0; VSeq [VOid [1; 2; 840; 10045; 2; 1]; VOid [1; 2; 840; 10045; 3; 1; 7]];
